@@ -79,6 +79,8 @@ class NumericArray(list):
     -------
     one of gfapy.NumericArray.SUBTYPE
     """
+    if len(self) == 0:
+      raise gfapy.ValueError("NumericArray shall not be empty")
     if all([ isinstance(f, float) for f in self]):
       return "f"
     else:
